@@ -17,6 +17,20 @@ class ToolError(Exception):
     pass
 
 
+class Died(Exception):
+    """the harness process was killed by a signal while it ran code under test (abort after a failed allocation, SIGSEGV,
+    SIGKILL): an observation about the code under test, reported as a violation with what is known about the run"""
+    def __init__(self, what, detail):
+        super().__init__(what)
+        self.what, self.detail = what, detail
+
+
+def _limits():
+    # code under test must not be able to take the machine down with it: 16 GB of address space for the harness process
+    import resource
+    resource.setrlimit(resource.RLIMIT_AS, (16 << 30, 16 << 30))
+
+
 def log(*a):
     print(*a, file=sys.stderr, flush=True)
 
@@ -177,9 +191,19 @@ def vh(args, *, timeout=600, env=None, stdin=None):
     exe = os.path.join(HARNESS, "target", "debug", "vh")
     try:
         p = subprocess.run([exe] + args, cwd=ROOT, env=e, stdout=subprocess.PIPE, stderr=subprocess.PIPE, text=True,
-                           timeout=timeout, input=stdin)
+                           timeout=timeout, input=stdin, preexec_fn=_limits)
     except subprocess.TimeoutExpired:
         raise ToolError("vh %s timed out after %ss" % (" ".join(args[:3]), timeout))
+    if p.returncode < 0:
+        import signal
+        try:
+            sig = signal.Signals(-p.returncode).name
+        except ValueError:
+            sig = str(-p.returncode)
+        raise Died("process-died:%s:%s" % (sig, "-".join(args[:3])),
+                   {"cmd": args, "signal": sig, "stderr_tail": p.stderr[-2000:], "stdout_tail": p.stdout[-500:],
+                    "note": "the harness process was killed while running code under test (16 GB address-space limit; an abort "
+                            "after a failed allocation shows as SIGABRT)"})
     if p.returncode != 0:
         raise ToolError("vh %s failed rc=%s\nstderr: %s\nstdout: %s" % (" ".join(args[:3]), p.returncode,
                                                                       p.stderr[-3000:], p.stdout[-1000:]))
